@@ -8,6 +8,10 @@ tree with `ast` and regenerates lean/FordModel/Generated/C07.lean:
                unit ("update" = self.X.update(getattr(self.parent, X, {})), "alias" = self.X =
                getattr(self.parent, X, {}), "copy" = a dict built from the host's, "merge-local-over-host")
   slotLookups : per reference owner class, the tables its `correlate` consults, in source order
+  usedObjects* / usedNamesWrites : shape of `FortranModule.get_used_entities`: what `result` starts
+               from, what is iterated, under which conditions which key is written (the renamed
+               entity is filed under its local name and under nothing else), and the direction of
+               the `used_names` entries
 
 A construct that cannot be found raises (tie broken, never a pass).
 """
@@ -110,6 +114,63 @@ def extract():
     return {"recursion": rec, "types_before": types_line < rec_line, "host": host, "lookups": lookups}
 
 
+def _walk_writes(stmts, conds, target, out):
+    """Every statement of `stmts` (recursively, with the if-conditions it is under) that touches the
+    dict variable `target`: out = {"init": [...], "writes": [(cond, key, value)], "loops": [...], "other": [...]}"""
+    for st in stmts:
+        if isinstance(st, ast.If):
+            t = ast.unparse(st.test)
+            _walk_writes(st.body, conds + [t], target, out)
+            _walk_writes(st.orelse, conds + [f"not ({t})"], target, out)
+        elif isinstance(st, (ast.For, ast.While)):
+            if isinstance(st, ast.For):
+                out["loops"].append(ast.unparse(st.iter))
+            _walk_writes(st.body, conds, target, out)
+            _walk_writes(st.orelse, conds, target, out)
+        elif isinstance(st, ast.Assign) and len(st.targets) == 1 and isinstance(st.targets[0], ast.Name) \
+                and st.targets[0].id == target:
+            out["init"].append(ast.unparse(st.value))
+        elif isinstance(st, ast.Assign) and len(st.targets) == 1 and isinstance(st.targets[0], ast.Subscript) \
+                and isinstance(st.targets[0].value, ast.Name) and st.targets[0].value.id == target:
+            out["writes"].append((" and ".join(conds) or "always", ast.unparse(st.targets[0].slice), ast.unparse(st.value)))
+        elif isinstance(st, (ast.Return, ast.Expr, ast.Assign, ast.AugAssign, ast.AnnAssign, ast.Delete, ast.With, ast.Try)):
+            if isinstance(st, ast.Return) and isinstance(st.value, ast.Name) and st.value.id == target:
+                continue
+            if any(isinstance(n, ast.Name) and n.id == target for n in ast.walk(st)):
+                out["other"].append(ast.unparse(st).splitlines()[0])
+            if isinstance(st, (ast.With, ast.Try)):
+                _walk_writes(getattr(st, "body", []), conds, target, out)
+
+
+def extract_use():
+    """Shape of FortranModule.get_used_entities (the USE import)."""
+    tree = ast.parse(_src())
+    fn = _method(tree, "FortranModule", "get_used_entities")
+    inner = [n for n in fn.body if isinstance(n, ast.FunctionDef) and n.name == "used_objects"]
+    if len(inner) != 1:
+        raise LookupError("inner function used_objects of FortranModule.get_used_entities not found")
+    uo = {"init": [], "writes": [], "loops": [], "other": []}
+    _walk_writes(inner[0].body, [], "result", uo)
+    un = {"init": [], "writes": [], "loops": [], "other": []}
+    _walk_writes([st for st in fn.body if not isinstance(st, ast.FunctionDef)], [], "used_names", un)
+    if not uo["init"] or not uo["writes"] or not un["writes"]:
+        raise LookupError("get_used_entities: construction of `result` / `used_names` not recognised")
+    # `if len(use_specs.strip()) == 0: return (self.pub_procs, ...)`
+    whole = None
+    for st in fn.body:
+        if isinstance(st, ast.If) and st.body and isinstance(st.body[0], ast.Return):
+            whole = (ast.unparse(st.test), ast.unparse(st.body[0].value))
+            break
+    if whole is None:
+        raise LookupError("get_used_entities: early return for a USE without list not found")
+    # the four calls `used_objects("<table>", only)`
+    calls = []
+    for n in ast.walk(fn):
+        if isinstance(n, ast.Call) and isinstance(n.func, ast.Name) and n.func.id == "used_objects":
+            calls.append(", ".join(ast.unparse(a) for a in n.args))
+    return {"used_objects": uo, "used_names": un, "whole": whole, "calls": calls}
+
+
 def code_variant():
     """'11' / '00' / ... as read from the source, or None when the shape is neither."""
     x = extract()["host"]
@@ -126,8 +187,17 @@ def _lstr(xs):
     return "[" + ", ".join('"%s"' % x for x in xs) + "]"
 
 
+def _q(x):
+    return '"' + x.replace("\\", "\\\\").replace('"', '\\"') + '"'
+
+
+def _ltup(xs):
+    return "[" + ", ".join("(" + ", ".join(_q(y) for y in x) + ")" for x in xs) + "]"
+
+
 def generate():
     x = extract()
+    u = extract_use()
     lines = [
         "/- GENERATED by translate/c07.py from ford/sourceform.py - do not edit -/",
         "namespace Ford.C07Gen",
@@ -141,6 +211,27 @@ def generate():
         "/-- how the host's table reaches a nested unit -/",
         "def hostTables : List (String × String) := ["
         + ", ".join(f'("{k}", "{v}")' for k, v in x["host"].items()) + "]",
+        "",
+        "/-- `used_objects` of FortranModule.get_used_entities: values `result` is bound to -/",
+        f"def usedObjectsInit : List String := [{', '.join(_q(v) for v in u['used_objects']['init'])}]",
+        "",
+        "/-- ... what its loops iterate -/",
+        f"def usedObjectsLoops : List String := [{', '.join(_q(v) for v in u['used_objects']['loops'])}]",
+        "",
+        "/-- ... every `result[key] = value`: (conditions, key, value) -/",
+        f"def usedObjectsWrites : List (String × String × String) := {_ltup(u['used_objects']['writes'])}",
+        "",
+        "/-- ... any other statement that touches `result` -/",
+        f"def usedObjectsOther : List String := [{', '.join(_q(v) for v in u['used_objects']['other'])}]",
+        "",
+        "/-- the tables `used_objects` is applied to -/",
+        f"def usedObjectsCalls : List String := [{', '.join(_q(v) for v in u['calls'])}]",
+        "",
+        "/-- every `used_names[key] = value` of get_used_entities: (conditions, key, value) -/",
+        f"def usedNamesWrites : List (String × String × String) := {_ltup(u['used_names']['writes'])}",
+        "",
+        "/-- a USE without list: (condition, returned tables) -/",
+        f"def useWithoutList : String × String := ({_q(u['whole'][0])}, {_q(u['whole'][1])})",
         "",
         "end Ford.C07Gen",
         "",
